@@ -235,7 +235,7 @@ func Convert(value any, typ reflect.Type) (any, error) { //nolint: gocyclo
 		case fmt.Stringer:
 			return value.String(), nil
 		default:
-			return fmt.Sprint(value), nil
+			return Sprint(value), nil
 		}
 	}
 	return nil, conversionError("", value, typ)
